@@ -229,7 +229,7 @@ def audit_real(real, fails, stats, doc_order):
     handoffs = 0
     pre = {"runs": 0, "bump_precondition_holds": 0, "inc_min": None, "round2_skipped": 0, "errors": 0}
     for r in real:
-        tag = {"country": r["country"], "option": r.get("option", {})}
+        tag = {"country": r["country"], "option": r.get("option", {}), "threshold": r.get("threshold")}
         pre["runs"] += 1
         if r.get("err"):
             pre["errors"] += 1
@@ -308,7 +308,8 @@ def run(payload):
         elif rep.get("real") or (isinstance(rep.get("case"), dict) and "country" in rep["case"]):
             import c18_impl
             tag = rep.get("real") or rep["case"]
-            real = c18_impl.capture_real([{"country": tag["country"], "option": tag.get("option", {})}])
+            real = c18_impl.capture_real([{"country": tag["country"], "option": tag.get("option", {}),
+                                            "threshold": tag.get("threshold")}])
             audit_real(real, fails, stats, doc_order)
         return {"failures": fails, "stats": stats}
     rng = random.Random(payload["seed"])
@@ -319,6 +320,10 @@ def run(payload):
     for c in payload.get("corpus", []):
         evaluated += audit_case(p, plain(c), fails, stats, doc_order)
         kinds["corpus"] += 1
+        nontrivial += 1
+    for c in gen.boundary_minneeds(rng):
+        kinds["minneeds"] += 1
+        evaluated += audit_case(p, c, fails, stats, doc_order)
         nontrivial += 1
     for i in range(n):
         dyadic = rng.random() < 0.7
